@@ -323,6 +323,9 @@ def random_names(rng, n, forbidden=(b'X   ',), alphabet=None):
                 nm = raw.ljust(4, b' ')
         if nm not in names and nm not in forbidden:
             names.append(nm)
+    if alphabet is not None and n >= 2 and rng.random() < 0.15:
+        # one channel whose name slot is all blanks (printable ASCII like any other: an unnamed auxiliary curve); it still counts
+        names[rng.randrange(n)] = b'    '
     return names
 
 
